@@ -87,8 +87,16 @@ fn select_max_index<T, Cmp: Fn(&T, &T) -> std::cmp::Ordering>(
         iter: impl Iterator<Item = &'a T>,
         compare: impl Fn(&'a T, &'a T) -> std::cmp::Ordering,
     ) -> usize {
-        let (index, _) = iter.enumerate().max_by(|a, b| compare(a.1, b.1)).unwrap(); // Ok because we checked tensor is not empty.
-        index
+        // Select the first of several equal maxima, as ONNX specifies when
+        // `select_last_index` is 0. nb. `Iterator::max_by` returns the last.
+        let mut iter = iter.enumerate();
+        let mut best = iter.next().unwrap(); // Ok because we checked tensor is not empty.
+        for item in iter {
+            if compare(item.1, best.1) == std::cmp::Ordering::Greater {
+                best = item;
+            }
+        }
+        best.0
     }
 
     if !input.is_empty() {
